@@ -150,7 +150,30 @@ def rule_fmtmsg(text, ctx, where):
     return text, n
 
 
-RULES = {"fmtmsg": rule_fmtmsg, "pubfields": rule_pubfields, "T": rule_T, "attrs": rule_attrs, "cell": rule_cell}
+def rule_mutself(text, ctx, where):
+    """`fn f(mut self, ..) { B }` -> `fn f(self, ..) { let mut self_ = self; B[self := self_] }` (Verus lacks `mut self`)"""
+    m = mask(text)
+    mt = re.search(r"\(\s*mut\s+self\b", m)
+    if not mt:
+        return text, 0
+    b = m.index("{", mt.end())
+    # body open = first top-level brace after the signature
+    from .rsitems import find_top_level
+    b = find_top_level(m, m.index("fn "), "{")
+    head = text[:b + 1].replace("mut self", "self", 1)
+    body = text[b + 1:]
+    mb = m[b + 1:]
+    out, last, n = [], 0, 0
+    for x in re.finditer(r"(?<![A-Za-z0-9_])self(?![A-Za-z0-9_])", mb):
+        out.append(body[last:x.start()])
+        out.append("self_")
+        last = x.end()
+        n += 1
+    out.append(body[last:])
+    return head + "\n    let mut self_ = self;" + "".join(out), 1
+
+
+RULES = {"mutself": rule_mutself, "fmtmsg": rule_fmtmsg, "pubfields": rule_pubfields, "T": rule_T, "attrs": rule_attrs, "cell": rule_cell}
 
 
 def apply_rules(text, rules, ctx, counts, where):
